@@ -1,6 +1,1033 @@
-//! C09 rig (see DESIGN.md section 3/C09) - filled in by the C09 check.
-use crate::util::Args;
+//! C09 — config store: last write wins, md5 matches content, listings match store (DESIGN.md section 3/C09).
+//!
+//! `vh c09 --seed S --shard i --shards n --out f --dir d --histories H [--ops N] [--only <history seed>] [--verbose]`
+//!
+//! Rig: a stand-alone `ConfigActor` per history (fresh state) with the `NamespaceActor` of one in-process host node
+//! injected through a `BeanFactory` (its constructor is crate-private, so it is taken from `config_factory`), all on
+//! one actix system. Operations are the messages the state machine really receives (`ConfigRaftCmd::{ConfigAdd,
+//! ConfigRemove, SetFullValue}`, `ConfigCmd::{SetTmpValue, SetFullValue}`); observations are `ConfigCmd::{GET,
+//! QueryPageInfo, QueryHistoryPageInfo}`. The oracle is the reference model below (written from the property, not
+//! from the code); md5 is recomputed with the md5 crate.
+use crate::util::{rng, Args, Report};
+use actix::prelude::*;
+use bean_factory::{BeanDefinition, BeanFactory};
+use rand::rngs::StdRng;
+use rand::Rng;
+use rnacos::common::AppSysConfig;
+use rnacos::config::config_index::ConfigQueryParam;
+use rnacos::config::config_type::ConfigType;
+use rnacos::config::core::{ConfigActor, ConfigCmd, ConfigInfoDto, ConfigKey, ConfigResult};
+use rnacos::config::dal::ConfigHistoryParam;
+use rnacos::config::model::{ConfigHistoryItemDO, ConfigRaftCmd, ConfigValueDO};
+use rnacos::namespace::NamespaceActor;
+use rnacos::starter::{build_share_data, config_factory};
+use serde_json::{json, Value};
+use std::collections::{BTreeSet, HashMap};
+use std::sync::Arc;
 
-pub fn run(_args: &Args) -> anyhow::Result<()> {
-    anyhow::bail!("not implemented")
+pub const TENANTS: [&str; 3] = ["", "dev", "t-租户:1"];
+pub const GROUPS: [&str; 3] = ["DEFAULT_GROUP", "grp-1", "GRP.测试"];
+pub const DATA_IDS: [&str; 6] = ["app.yaml", "app-dev.yaml", "db.properties", "App.YAML", "路由:rules.json", "a"];
+const LIKE_GROUP: [&str; 5] = ["GR", "grp", "测", "_", "nomatch"];
+const LIKE_DATA: [&str; 7] = ["app", "yaml", ".", "a", "YAML", "rules", "zzz"];
+const PAGE_SIZES: [usize; 4] = [1, 2, 7, 100];
+const BOUND: usize = 100;
+
+fn md5_hex(s: &str) -> String {
+    format!("{:x}", md5::compute(s.as_bytes()))
+}
+
+fn norm_type(v: Option<&str>) -> String {
+    ConfigType::new_by_value(v.unwrap_or("")).get_value().to_string()
+}
+
+fn key_parts(k: usize) -> (&'static str, &'static str, &'static str) {
+    let t = k / (GROUPS.len() * DATA_IDS.len());
+    let g = (k / DATA_IDS.len()) % GROUPS.len();
+    let d = k % DATA_IDS.len();
+    (TENANTS[t], GROUPS[g], DATA_IDS[d])
+}
+const NKEYS: usize = 54;
+
+fn key_name(k: usize) -> String {
+    let (t, g, d) = key_parts(k);
+    format!("{}|{}|{}", t, g, d)
+}
+
+fn brief(s: &str) -> Value {
+    if s.chars().count() <= 40 {
+        json!(s)
+    } else {
+        json!({"len": s.len(), "md5": md5_hex(s), "head": s.chars().take(24).collect::<String>()})
+    }
+}
+
+// ------------------------------------------------------------------------------------------------ operations
+#[derive(Clone)]
+pub enum Op {
+    Add { k: usize, content: Arc<String>, ctype: Option<String>, desc: Option<String>, long_key: bool },
+    Remove { k: usize },
+    /// full-value import; `raft` = ConfigRaftCmd::SetFullValue (ClientRequest::ConfigFullValue), else ConfigCmd::SetFullValue (snapshot load)
+    Import { k: usize, content: Arc<String>, hist: Vec<Arc<String>>, ctype: Option<String>, desc: Option<String>, raft: bool },
+    Tmp { k: usize, content: Arc<String> },
+    Sweep,
+}
+
+impl Op {
+    fn key(&self) -> Option<usize> {
+        match self {
+            Op::Add { k, .. } | Op::Remove { k } | Op::Import { k, .. } | Op::Tmp { k, .. } => Some(*k),
+            Op::Sweep => None,
+        }
+    }
+    fn to_json(&self) -> Value {
+        match self {
+            Op::Add { k, content, ctype, desc, long_key } => {
+                json!({"op": "ConfigAdd", "key": key_name(*k), "content": brief(content), "type": ctype, "desc": desc, "explicit_empty_tenant_in_key": long_key})
+            }
+            Op::Remove { k } => json!({"op": "ConfigRemove", "key": key_name(*k)}),
+            Op::Import { k, content, hist, ctype, desc, raft } => {
+                json!({"op": if *raft {"ConfigRaftCmd::SetFullValue"} else {"ConfigCmd::SetFullValue"}, "key": key_name(*k), "content": brief(content), "history_len": hist.len(),
+                       "history_tail": hist.iter().rev().take(3).map(|h| brief(h)).collect::<Vec<_>>(), "type": ctype, "desc": desc})
+            }
+            Op::Tmp { k, content } => json!({"op": "SetTmpValue", "key": key_name(*k), "content": brief(content)}),
+            Op::Sweep => json!({"op": "sweep"}),
+        }
+    }
+}
+
+struct Gen {
+    r: StdRng,
+    n: u64,
+    last: Vec<Option<Arc<String>>>,
+}
+
+impl Gen {
+    fn content(&mut self, k: usize) -> (Arc<String>, &'static str) {
+        self.n += 1;
+        let c = self.r.gen_range(0..100);
+        if c < 22 {
+            if let Some(l) = &self.last[k] {
+                return (l.clone(), "same");
+            }
+        }
+        let (s, class) = if c < 27 {
+            (String::new(), "empty")
+        } else if c < 31 {
+            let unit = format!("line-{}-{};\n", self.n, self.r.gen::<u32>());
+            let target = self.r.gen_range(20_000..90_000usize);
+            (unit.repeat(target / unit.len() + 1), "large")
+        } else if c < 45 {
+            (format!("配置-{}\n键=值 ünïcödé 🚀 {}", self.n, self.r.gen::<u16>()), "non-ascii")
+        } else {
+            (format!("v{}: {}\nkey.{}=value & more = <x> \"q\" \t end", self.n, self.r.gen::<u32>(), self.n % 7), "new")
+        };
+        (Arc::new(s), class)
+    }
+    fn ctype(&mut self) -> Option<String> {
+        const T: [&str; 12] = ["yaml", "json", "properties", "text", "YAML", "yml", "xml", "html", "toml", "Json", "unknown-x", ""];
+        if self.r.gen_bool(0.5) {
+            None
+        } else {
+            Some(T[self.r.gen_range(0..T.len())].to_string())
+        }
+    }
+    fn desc(&mut self) -> Option<String> {
+        match self.r.gen_range(0..10) {
+            0..=5 => None,
+            6 => Some(String::new()),
+            7 => Some(format!("说明 {}", self.n)),
+            _ => Some(format!("desc {}", self.n)),
+        }
+    }
+}
+
+/// one seeded history: a list of concrete operations (contents resolved at generation time)
+pub fn gen_history(seed: u64, nops: usize) -> (Vec<Op>, &'static str) {
+    let mut g = Gen { r: rng(seed), n: 0, last: vec![None; NKEYS] };
+    let style = match g.r.gen_range(0..10) {
+        0..=3 => "broad",
+        4..=6 => "hot",
+        7..=8 => "few-keys",
+        _ => "one-tenant",
+    };
+    // key pool of this history
+    let pool: Vec<usize> = match style {
+        "broad" => (0..NKEYS).collect(),
+        "hot" => {
+            let mut p: Vec<usize> = (0..NKEYS).filter(|_| g.r.gen_bool(0.3)).collect();
+            p.push(g.r.gen_range(0..NKEYS));
+            p
+        }
+        "few-keys" => (0..g.r.gen_range(2..6)).map(|_| g.r.gen_range(0..NKEYS)).collect(),
+        _ => {
+            let t = g.r.gen_range(0..3);
+            (t * 18..t * 18 + 18).collect()
+        }
+    };
+    let hot: Vec<usize> = (0..g.r.gen_range(1..3)).map(|_| pool[g.r.gen_range(0..pool.len())]).collect();
+    let nops = if style == "hot" { nops.max(150) + g.r.gen_range(0..120) } else { nops / 2 + g.r.gen_range(0..nops) };
+    let mut ops = vec![];
+    let mut since_sweep = 0;
+    for _ in 0..nops {
+        let k = if style == "hot" && g.r.gen_bool(0.85) {
+            hot[g.r.gen_range(0..hot.len())]
+        } else {
+            pool[g.r.gen_range(0..pool.len())]
+        };
+        let c = g.r.gen_range(0..100);
+        let (p_rm, p_imp, p_tmp) = if style == "hot" { (2, 2, 5) } else { (14, 8, 10) };
+        let op = if c < p_rm {
+            g.last[k] = None;
+            Op::Remove { k }
+        } else if c < p_rm + p_imp {
+            let (content, _) = g.content(k);
+            let n = match g.r.gen_range(0..6) {
+                0 => 0,
+                1 => 1,
+                2 => BOUND,
+                3 => BOUND - 1,
+                _ => g.r.gen_range(2..40),
+            };
+            let mut hist: Vec<Arc<String>> = (0..n).map(|i| Arc::new(format!("imported-{}-{}", g.n, i))).collect();
+            if n > 0 && g.r.gen_bool(0.85) {
+                let l = hist.len();
+                hist[l - 1] = content.clone();
+            }
+            g.last[k] = Some(content.clone());
+            Op::Import { k, content, hist, ctype: g.ctype(), desc: g.desc(), raft: g.r.gen_bool(0.6) }
+        } else if c < p_rm + p_imp + p_tmp {
+            let (content, _) = g.content(k);
+            // a routed write: the temporary value is normally followed by the publish of the same content
+            Op::Tmp { k, content }
+        } else {
+            let (content, _) = g.content(k);
+            g.last[k] = Some(content.clone());
+            Op::Add { k, content, ctype: g.ctype(), desc: g.desc(), long_key: g.r.gen_bool(0.1) }
+        };
+        // after a temporary value: usually (70 %) the publish that it announces follows at once
+        let follow = if let Op::Tmp { k, content } = &op {
+            if g.r.gen_bool(0.7) {
+                Some((*k, content.clone()))
+            } else {
+                None
+            }
+        } else {
+            None
+        };
+        ops.push(op);
+        if let Some((k, content)) = follow {
+            g.last[k] = Some(content.clone());
+            ops.push(Op::Add { k, content, ctype: g.ctype(), desc: g.desc(), long_key: false });
+        }
+        since_sweep += 1;
+        if since_sweep >= 20 {
+            ops.push(Op::Sweep);
+            since_sweep = 0;
+        }
+    }
+    ops.push(Op::Sweep);
+    (ops, style)
+}
+
+// ------------------------------------------------------------------------------------------------ reference model
+#[derive(Clone)]
+struct Applied {
+    content: Arc<String>,
+    /// acceptable normalised types / descriptions ("" = none); collapsed to the observed one at every read
+    ctype: Vec<String>,
+    desc: Vec<String>,
+    /// acceptable histories, oldest first (more than one only where the property is silent)
+    hists: Vec<Vec<Arc<String>>>,
+    trimmed: bool,
+}
+
+#[derive(Clone)]
+struct MKey {
+    applied: Option<Applied>,
+    tmp: Option<Arc<String>>,
+    lineage: &'static str,
+}
+
+fn push_bounded(h: &mut Vec<Arc<String>>, c: Arc<String>) -> bool {
+    h.push(c);
+    if h.len() > BOUND {
+        let cut = h.len() - BOUND;
+        h.drain(0..cut);
+        true
+    } else {
+        false
+    }
+}
+
+fn add_alt(hists: &mut Vec<Vec<Arc<String>>>, h: Vec<Arc<String>>) {
+    if !hists.iter().any(|x| x.len() == h.len() && x.iter().zip(h.iter()).all(|(a, b)| a == b)) {
+        hists.push(h);
+    }
+}
+
+#[derive(Default)]
+struct Model {
+    keys: HashMap<usize, MKey>,
+    removed: BTreeSet<usize>,
+    old_hist: HashMap<usize, Vec<Arc<String>>>,
+    last_class: HashMap<usize, &'static str>,
+}
+
+impl Model {
+    /// returns the class of the operation (for shapes / signatures)
+    fn apply(&mut self, op: &Op) -> &'static str {
+        let class: &'static str = match op {
+            Op::Add { k, content, ctype, desc, .. } => {
+                let given_t = ctype.as_deref().map(|t| norm_type(Some(t)));
+                let given_d = desc.clone();
+                match self.keys.get_mut(k) {
+                    None => {
+                        let mut hists = vec![vec![content.clone()]];
+                        if let Some(old) = self.old_hist.get(k) {
+                            // the property does not say whether a re-created key continues the old history
+                            let mut h = old.clone();
+                            push_bounded(&mut h, content.clone());
+                            add_alt(&mut hists, h);
+                        }
+                        let lineage = if self.removed.contains(k) { "recreated-after-remove" } else { "created-by-publish" };
+                        self.keys.insert(*k, MKey {
+                            applied: Some(Applied { content: content.clone(), ctype: vec![given_t.unwrap_or_else(|| norm_type(None))], desc: vec![given_d.unwrap_or_default()], hists, trimmed: false }),
+                            tmp: None,
+                            lineage,
+                        });
+                        "add-first"
+                    }
+                    Some(mk) => {
+                        let tmp = mk.tmp.take();
+                        match &mut mk.applied {
+                            Some(a) => {
+                                match given_t {
+                                    Some(t) => a.ctype = vec![t],
+                                    None => {
+                                        let d = norm_type(None);
+                                        if !a.ctype.contains(&d) {
+                                            a.ctype.push(d);
+                                        }
+                                    }
+                                }
+                                match given_d {
+                                    Some(d) => a.desc = vec![d],
+                                    None => {
+                                        if !a.desc.contains(&String::new()) {
+                                            a.desc.push(String::new());
+                                        }
+                                    }
+                                }
+                                let changed = a.content.as_str() != content.as_str();
+                                let cls = if changed {
+                                    for h in a.hists.iter_mut() {
+                                        if push_bounded(h, content.clone()) {
+                                            a.trimmed = true;
+                                        }
+                                    }
+                                    if tmp.is_some() { "add-new-over-tmp" } else { "add-new" }
+                                } else if tmp.is_some() {
+                                    // same as the last applied content, but a temporary value was shown in between:
+                                    // an entry is neither demanded nor forbidden
+                                    let mut extra = vec![];
+                                    for h in a.hists.iter() {
+                                        let mut h2 = h.clone();
+                                        push_bounded(&mut h2, content.clone());
+                                        extra.push(h2);
+                                    }
+                                    for h in extra {
+                                        add_alt(&mut a.hists, h);
+                                    }
+                                    "add-same-over-tmp"
+                                } else {
+                                    "add-same"
+                                };
+                                a.content = content.clone();
+                                cls
+                            }
+                            None => {
+                                mk.applied = Some(Applied { content: content.clone(), ctype: vec![given_t.unwrap_or_else(|| norm_type(None))], desc: vec![given_d.unwrap_or_default()], hists: vec![vec![content.clone()]], trimmed: false });
+                                mk.lineage = "first-seen-as-tmp-value";
+                                "add-first-over-tmp"
+                            }
+                        }
+                    }
+                }
+            }
+            Op::Remove { k } => {
+                let had = self.keys.remove(k);
+                self.removed.insert(*k);
+                match had {
+                    Some(mk) => {
+                        if let Some(a) = mk.applied {
+                            self.old_hist.insert(*k, a.hists[0].clone());
+                            if mk.tmp.is_some() { "remove-with-tmp" } else { "remove" }
+                        } else {
+                            "remove-tmp-only"
+                        }
+                    }
+                    None => "remove-absent",
+                }
+            }
+            Op::Import { k, content, hist, ctype, desc, .. } => {
+                let existed = self.keys.contains_key(k);
+                let lineage = match self.keys.get(k) {
+                    Some(mk) if mk.applied.is_some() => mk.lineage,
+                    Some(_) => "first-seen-as-tmp-value-then-import",
+                    None => if self.removed.contains(k) { "reimported-after-remove" } else { "created-by-import" },
+                };
+                self.keys.insert(*k, MKey {
+                    applied: Some(Applied { content: content.clone(), ctype: vec![norm_type(ctype.as_deref())], desc: vec![desc.clone().unwrap_or_default()], hists: vec![hist.clone()], trimmed: false }),
+                    tmp: None,
+                    lineage,
+                });
+                if existed { "import-over" } else { "import-first" }
+            }
+            Op::Tmp { k, content } => match self.keys.get_mut(k) {
+                Some(mk) => {
+                    mk.tmp = Some(content.clone());
+                    if mk.applied.is_some() { "tmp-over" } else { "tmp-again" }
+                }
+                None => {
+                    self.keys.insert(*k, MKey { applied: None, tmp: Some(content.clone()), lineage: "tmp-only" });
+                    "tmp-first"
+                }
+            },
+            Op::Sweep => "sweep",
+        };
+        if let Some(k) = op.key() {
+            self.last_class.insert(k, class);
+        }
+        class
+    }
+}
+
+// ------------------------------------------------------------------------------------------------ listing filters
+#[derive(Clone, Debug)]
+pub struct Filter {
+    tenant: Option<usize>,
+    group: Option<String>,
+    data_id: Option<String>,
+    like_group: Option<String>,
+    like_data_id: Option<String>,
+    query_context: bool,
+    /// which endpoint family produces this shape ("" = none does: diagnostics only)
+    family: &'static str,
+}
+
+impl Filter {
+    fn matches(&self, k: usize) -> bool {
+        let (t, g, d) = key_parts(k);
+        if let Some(ti) = self.tenant {
+            if TENANTS[ti] != t {
+                return false;
+            }
+        }
+        let mg = match (&self.group, &self.like_group) {
+            (Some(x), _) => x.is_empty() || x == g,
+            (None, Some(p)) => p.is_empty() || g.contains(p.as_str()),
+            (None, None) => true,
+        };
+        let md = match (&self.data_id, &self.like_data_id) {
+            (Some(x), _) => x.is_empty() || x == d,
+            (None, Some(p)) => p.is_empty() || d.contains(p.as_str()),
+            (None, None) => true,
+        };
+        mg && md
+    }
+    fn shape(&self) -> String {
+        fn cls(e: &Option<String>, l: &Option<String>) -> &'static str {
+            match (e, l) {
+                (Some(x), _) if x.is_empty() => "exact-empty",
+                (Some(_), _) => "exact",
+                (None, Some(x)) if x.is_empty() => "like-empty",
+                (None, Some(_)) => "like",
+                (None, None) => "none",
+            }
+        }
+        format!("{}/g={}/d={}", if self.family.is_empty() { "unreachable" } else { self.family }, cls(&self.group, &self.like_group), cls(&self.data_id, &self.like_data_id))
+    }
+    fn to_param(&self, offset: usize, limit: usize) -> ConfigQueryParam {
+        ConfigQueryParam {
+            tenant: self.tenant.map(|t| Arc::new(TENANTS[t].to_string())),
+            group: self.group.clone().map(Arc::new),
+            data_id: self.data_id.clone().map(Arc::new),
+            like_group: self.like_group.clone(),
+            like_data_id: self.like_data_id.clone(),
+            namespace_privilege: Default::default(),
+            query_context: self.query_context,
+            offset,
+            limit,
+        }
+    }
+    fn to_json(&self) -> Value {
+        json!({"tenant": self.tenant.map(|t| TENANTS[t]), "group": self.group, "data_id": self.data_id, "like_group": self.like_group,
+               "like_data_id": self.like_data_id, "query_context": self.query_context, "family": self.family})
+    }
+}
+
+/// every filter shape an endpoint can produce for one tenant (see openapi/config/api.rs build_search_param /
+/// build_like_search_param, console/model/config_model.rs to_param): tenant always exact
+fn endpoint_filters(t: usize) -> Vec<Filter> {
+    let mut v = vec![];
+    let mut ex_g: Vec<Option<String>> = vec![None, Some(String::new()), Some("nosuchgroup".into())];
+    ex_g.extend(GROUPS.iter().map(|g| Some(g.to_string())));
+    let mut ex_d: Vec<Option<String>> = vec![None, Some(String::new()), Some("nosuch".into())];
+    ex_d.extend(DATA_IDS.iter().map(|d| Some(d.to_string())));
+    for g in &ex_g {
+        for d in &ex_d {
+            v.push(Filter { tenant: Some(t), group: g.clone(), data_id: d.clone(), like_group: None, like_data_id: None, query_context: true, family: "openapi-accurate" });
+        }
+    }
+    let mut lk_g: Vec<Option<String>> = vec![None, Some(String::new())];
+    lk_g.extend(LIKE_GROUP.iter().map(|g| Some(g.to_string())));
+    let mut lk_d: Vec<Option<String>> = vec![None, Some(String::new())];
+    lk_d.extend(LIKE_DATA.iter().map(|d| Some(d.to_string())));
+    for g in &lk_g {
+        for d in &lk_d {
+            v.push(Filter { tenant: Some(t), group: None, data_id: None, like_group: g.clone(), like_data_id: d.clone(), query_context: true, family: "openapi-blur" });
+            v.push(Filter { tenant: Some(t), group: None, data_id: None, like_group: g.clone(), like_data_id: d.clone(), query_context: false, family: "console-list" });
+        }
+    }
+    v
+}
+
+/// shapes the type allows but no endpoint produces
+fn unreachable_filters() -> Vec<Filter> {
+    let mut v = vec![Filter { tenant: None, group: None, data_id: None, like_group: None, like_data_id: None, query_context: true, family: "" }];
+    v.push(Filter { tenant: None, group: None, data_id: None, like_group: Some("GR".into()), like_data_id: Some("a".into()), query_context: false, family: "" });
+    for t in 0..3 {
+        v.push(Filter { tenant: Some(t), group: Some(GROUPS[0].into()), data_id: None, like_group: None, like_data_id: Some("app".into()), query_context: true, family: "" });
+        v.push(Filter { tenant: Some(t), group: None, data_id: Some(DATA_IDS[0].into()), like_group: Some("GR".into()), like_data_id: None, query_context: false, family: "" });
+    }
+    v
+}
+
+// ------------------------------------------------------------------------------------------------ executor
+pub struct Viol {
+    pub sig: String,
+    pub op_index: usize,
+    pub detail: Value,
+}
+
+pub struct Ctx {
+    pub ns: Addr<NamespaceActor>,
+}
+
+struct Run<'a> {
+    cfg: Addr<ConfigActor>,
+    model: Model,
+    rep: Option<&'a mut Report>,
+    diag: Vec<(String, Value)>,
+    r: StdRng,
+    full_sweeps: bool,
+    hist_id: u64,
+}
+
+async fn new_config_actor(ctx: &Ctx) -> Addr<ConfigActor> {
+    let cfg = ConfigActor::new().start();
+    let factory = BeanFactory::new();
+    factory.register(BeanDefinition::actor_from_obj(ctx.ns.clone()));
+    factory.register(BeanDefinition::actor_with_inject_from_obj::<ConfigActor>(cfg.clone()));
+    let _ = factory.init().await;
+    cfg
+}
+
+impl<'a> Run<'a> {
+    fn shape(&mut self, s: String) {
+        if let Some(r) = self.rep.as_mut() {
+            r.shape(s);
+        }
+    }
+    fn count(&mut self, k: &str, n: u64) {
+        if let Some(r) = self.rep.as_mut() {
+            r.count(k, n);
+            r.evaluations += n;
+        }
+    }
+
+    async fn send_op(&mut self, op: &Op) -> anyhow::Result<()> {
+        match op {
+            Op::Add { k, content, ctype, desc, long_key } => {
+                let (t, g, d) = key_parts(*k);
+                // the documented key grammar: dataId \x02 group [\x02 tenant]
+                let key = if t.is_empty() && !*long_key { format!("{}\x02{}", d, g) } else { format!("{}\x02{}\x02{}", d, g, t) };
+                self.hist_id += 1;
+                let cmd = ConfigRaftCmd::ConfigAdd {
+                    key,
+                    value: content.clone(),
+                    config_type: ctype.clone().map(Arc::new),
+                    desc: desc.clone().map(Arc::new),
+                    history_id: self.hist_id,
+                    history_table_id: if self.hist_id % 3 == 0 { Some(self.hist_id + 100) } else { None },
+                    op_time: 1_700_000_000_000 + self.hist_id as i64,
+                    op_user: Some(Arc::new("verif".to_string())),
+                };
+                self.cfg.send(cmd).await?.map(|_| ())
+            }
+            Op::Remove { k } => {
+                let (t, g, d) = key_parts(*k);
+                let key = if t.is_empty() { format!("{}\x02{}", d, g) } else { format!("{}\x02{}\x02{}", d, g, t) };
+                self.cfg.send(ConfigRaftCmd::ConfigRemove { key }).await?.map(|_| ())
+            }
+            Op::Import { k, content, hist, ctype, desc, raft } => {
+                let (t, g, d) = key_parts(*k);
+                let mut items = vec![];
+                for h in hist {
+                    self.hist_id += 1;
+                    items.push(ConfigHistoryItemDO { id: Some(self.hist_id), content: Some(h.to_string()), last_time: Some(1_700_000_000_000 + self.hist_id as i64), op_user: Some("importer".into()) });
+                }
+                let vdo = ConfigValueDO { content: Some(content.to_string()), histories: items, config_type: ctype.clone(), desc: desc.clone() };
+                let key = ConfigKey::new(d, g, t);
+                if *raft {
+                    self.cfg.send(ConfigRaftCmd::SetFullValue { key, value: vdo.into(), last_id: Some(self.hist_id) }).await?.map(|_| ())
+                } else {
+                    self.cfg.send(ConfigCmd::SetFullValue(key, vdo.into())).await?.map(|_| ())
+                }
+            }
+            Op::Tmp { k, content } => {
+                let (t, g, d) = key_parts(*k);
+                self.cfg.send(ConfigCmd::SetTmpValue(ConfigKey::new(d, g, t), content.clone())).await?.map(|_| ())
+            }
+            Op::Sweep => Ok(()),
+        }
+    }
+
+    /// GET + full history of one key against the model
+    async fn check_key(&mut self, k: usize, class: &str) -> anyhow::Result<Option<(String, Value)>> {
+        let (t, g, d) = key_parts(k);
+        let got = self.cfg.send(ConfigCmd::GET(ConfigKey::new(d, g, t))).await??;
+        self.count("get_checks", 1);
+        let mk = self.model.keys.get_mut(&k);
+        match (mk, got) {
+            (None, ConfigResult::Data { value, .. }) => {
+                let sig = if self.model.removed.contains(&k) { "get/data-served-after-remove" } else { "get/data-served-for-never-written-key" };
+                return Ok(Some((format!("{}/after-{}", sig, class), json!({"key": key_name(k), "served": brief(&value)}))));
+            }
+            (None, _) => {
+                if self.model.removed.contains(&k) {
+                    self.shape("get/not-found-after-remove".to_string());
+                }
+            }
+            (Some(mk), ConfigResult::Data { value, md5, config_type, desc, .. }) => {
+                let mut ok_contents: Vec<Arc<String>> = vec![];
+                if let Some(t) = &mk.tmp {
+                    ok_contents.push(t.clone());
+                }
+                if let Some(a) = &mk.applied {
+                    ok_contents.push(a.content.clone());
+                }
+                if !ok_contents.iter().any(|c| c.as_str() == value.as_str()) {
+                    return Ok(Some((format!("get/content-is-not-the-last-published/after-{}", class),
+                        json!({"key": key_name(k), "served": brief(&value), "expected_one_of": ok_contents.iter().map(|c| brief(c)).collect::<Vec<_>>(), "lineage": mk.lineage}))));
+                }
+                let want_md5 = md5_hex(&value);
+                if md5.as_str() != want_md5 {
+                    return Ok(Some((format!("get/md5-does-not-match-content/after-{}", class),
+                        json!({"key": key_name(k), "served_md5": md5.as_str(), "md5_of_served_content": want_md5, "content": brief(&value), "tmp_pending": mk.tmp.is_some()}))));
+                }
+                if let Some(a) = mk.applied.as_mut() {
+                    let at = norm_type(config_type.as_ref().map(|x| x.as_str()));
+                    if !a.ctype.contains(&at) {
+                        return Ok(Some((format!("get/type-is-not-the-last-published/after-{}", class),
+                            json!({"key": key_name(k), "served_type": config_type.as_ref().map(|x| x.as_str()), "normalised": at, "acceptable": a.ctype}))));
+                    }
+                    a.ctype = vec![at];
+                    let ad = desc.as_ref().map(|x| x.to_string()).unwrap_or_default();
+                    if !a.desc.contains(&ad) {
+                        return Ok(Some((format!("get/desc-is-not-the-last-published/after-{}", class),
+                            json!({"key": key_name(k), "served_desc": ad, "acceptable": a.desc}))));
+                    }
+                    a.desc = vec![ad];
+                }
+            }
+            (Some(mk), _) => {
+                if mk.applied.is_some() {
+                    return Ok(Some((format!("get/not-found-although-published/after-{}", class), json!({"key": key_name(k), "lineage": mk.lineage}))));
+                }
+                // temporary value only: the property is silent
+            }
+        }
+        // ---- history (only where the model has an applied value; after a remove the property is silent)
+        let has_applied = self.model.keys.get(&k).map(|m| m.applied.is_some()).unwrap_or(false);
+        if has_applied {
+            let (total, list) = self.history_page(k, Some(0), Some(100_000)).await?;
+            let mk = self.model.keys.get_mut(&k).unwrap();
+            let tmp_pending = mk.tmp.is_some();
+            let a = mk.applied.as_mut().unwrap();
+            let newest_first: Vec<&str> = list.iter().map(|s| s.as_str()).collect();
+            let hit = a.hists.iter().position(|h| h.len() == newest_first.len() && h.iter().rev().zip(newest_first.iter()).all(|(x, y)| x.as_str() == *y));
+            match hit {
+                Some(i) => {
+                    if a.hists.len() > 1 {
+                        let h = a.hists[i].clone();
+                        a.hists = vec![h];
+                    }
+                    if total != list.len() {
+                        return Ok(Some(("history/total-differs-from-entries".to_string(), json!({"key": key_name(k), "total": total, "entries": list.len()}))));
+                    }
+                    let (len, trimmed) = (a.hists[0].len(), a.trimmed);
+                    if trimmed && len == BOUND {
+                        self.shape("history/bounded-to-100-after-more-publishes".to_string());
+                    }
+                    if class == "add-same" {
+                        self.shape("history/unchanged-content-adds-no-entry".to_string());
+                    }
+                }
+                None => {
+                    let want = &a.hists[0];
+                    let want_nf: Vec<&str> = want.iter().rev().map(|x| x.as_str()).collect();
+                    let sym = if newest_first.len() > BOUND {
+                        "more-than-100-entries".to_string()
+                    } else if newest_first.len() == want_nf.len() && newest_first.iter().rev().zip(want_nf.iter()).all(|(x, y)| x == y) && want_nf.len() > 1 {
+                        "not-newest-first".to_string()
+                    } else if newest_first.len() == want_nf.len() + 1 && newest_first[1..] == want_nf[..] {
+                        format!("extra-entry/after-{}", class)
+                    } else if newest_first.len() + 1 == want_nf.len() && newest_first[..] == want_nf[1..] {
+                        format!("missing-newest-entry/after-{}", class)
+                    } else if a.trimmed {
+                        "wrong-entries-after-trimming-to-100".to_string()
+                    } else {
+                        format!("entries-differ/after-{}", class)
+                    };
+                    return Ok(Some((format!("history/{}", sym), json!({
+                        "key": key_name(k), "tmp_pending": tmp_pending, "served_len": newest_first.len(), "expected_len": want_nf.len(),
+                        "served_newest": newest_first.iter().take(4).map(|s| brief(s)).collect::<Vec<_>>(),
+                        "expected_newest": want_nf.iter().take(4).map(|s| brief(s)).collect::<Vec<_>>(),
+                        "served_oldest": newest_first.iter().rev().take(2).map(|s| brief(s)).collect::<Vec<_>>(),
+                        "expected_oldest": want_nf.iter().rev().take(2).map(|s| brief(s)).collect::<Vec<_>>(),
+                        "alternatives_accepted": a.hists.len()}))));
+                }
+            }
+        }
+        Ok(None)
+    }
+
+    async fn history_page(&mut self, k: usize, offset: Option<i64>, limit: Option<i64>) -> anyhow::Result<(usize, Vec<String>)> {
+        let (t, g, d) = key_parts(k);
+        // shape of console OpsConfigQueryListRequest::to_history_param
+        let p = ConfigHistoryParam { id: None, data_id: Some(d.to_string()), group: Some(g.to_string()), tenant: Some(t.to_string()), order_by: Some("last_time".into()), order_by_desc: Some(true), limit, offset };
+        self.count("history_queries", 1);
+        match self.cfg.send(ConfigCmd::QueryHistoryPageInfo(Box::new(p))).await?? {
+            ConfigResult::ConfigHistoryInfoPage(total, list) => Ok((total, list.into_iter().map(|x| x.content.unwrap_or_default()).collect())),
+            _ => anyhow::bail!("unexpected answer to QueryHistoryPageInfo"),
+        }
+    }
+
+    async fn query(&mut self, f: &Filter, offset: usize, limit: usize) -> anyhow::Result<(usize, Vec<ConfigInfoDto>)> {
+        self.count("list_queries", 1);
+        match self.cfg.send(ConfigCmd::QueryPageInfo(Box::new(f.to_param(offset, limit)))).await?? {
+            ConfigResult::ConfigInfoPage(total, list) => Ok((total, list)),
+            _ => anyhow::bail!("unexpected answer to QueryPageInfo"),
+        }
+    }
+
+    /// pages through one filter with one page size; returns the first discrepancy (symptom, detail)
+    async fn check_listing(&mut self, f: &Filter, limit: usize) -> anyhow::Result<Option<(String, Value)>> {
+        let must: BTreeSet<usize> = self.model.keys.iter().filter(|(k, m)| m.applied.is_some() && f.matches(**k)).map(|(k, _)| *k).collect();
+        let may: BTreeSet<usize> = self.model.keys.iter().filter(|(k, m)| m.applied.is_none() && f.matches(**k)).map(|(k, _)| *k).collect();
+        let index: HashMap<(String, String, String), usize> = (0..NKEYS).map(|k| { let (t, g, d) = key_parts(k); ((t.to_string(), g.to_string(), d.to_string()), k) }).collect();
+        let mut seen: BTreeSet<usize> = BTreeSet::new();
+        let mut page = 0usize;
+        let mut totals = vec![];
+        let mut lens = vec![];
+        loop {
+            let offset = page * limit;
+            let (total, list) = self.query(f, offset, limit).await?;
+            totals.push(total);
+            lens.push(list.len());
+            for it in &list {
+                let id = (it.tenant.to_string(), it.group.to_string(), it.data_id.to_string());
+                let k = match index.get(&id) {
+                    Some(k) => *k,
+                    None => return Ok(Some(("unknown-key-listed".into(), json!({"filter": f.to_json(), "limit": limit, "offset": offset, "item": format!("{:?}", id)})))),
+                };
+                if !self.model.keys.contains_key(&k) {
+                    let s = if self.model.removed.contains(&k) { "removed-key-listed" } else { "never-written-key-listed" };
+                    return Ok(Some((s.into(), json!({"filter": f.to_json(), "limit": limit, "offset": offset, "key": key_name(k), "last_op_on_key": self.model.last_class.get(&k)}))));
+                }
+                if !f.matches(k) {
+                    return Ok(Some(("key-outside-filter-listed".into(), json!({"filter": f.to_json(), "limit": limit, "offset": offset, "key": key_name(k)}))));
+                }
+                if !seen.insert(k) {
+                    return Ok(Some(("key-listed-twice".into(), json!({"filter": f.to_json(), "limit": limit, "offset": offset, "key": key_name(k), "page": page}))));
+                }
+                let mk = self.model.keys.get(&k).unwrap();
+                if f.query_context {
+                    let c = it.content.as_ref().map(|x| x.as_str()).unwrap_or("");
+                    let ok = mk.tmp.as_ref().map(|t| t.as_str() == c).unwrap_or(false) || mk.applied.as_ref().map(|a| a.content.as_str() == c).unwrap_or(false);
+                    if !ok {
+                        return Ok(Some(("listed-content-is-not-the-last-published".into(), json!({"filter": f.to_json(), "key": key_name(k), "served": brief(c)}))));
+                    }
+                    let m = it.md5.as_ref().map(|x| x.as_str()).unwrap_or("");
+                    if m != md5_hex(c) {
+                        return Ok(Some(("listed-md5-does-not-match-content".into(), json!({"filter": f.to_json(), "key": key_name(k), "served_md5": m, "content": brief(c)}))));
+                    }
+                }
+                if let Some(a) = &mk.applied {
+                    let d = it.desc.as_ref().map(|x| x.to_string()).unwrap_or_default();
+                    if !a.desc.contains(&d) {
+                        return Ok(Some(("listed-desc-is-not-the-last-published".into(), json!({"filter": f.to_json(), "key": key_name(k), "served": d, "acceptable": a.desc}))));
+                    }
+                }
+            }
+            page += 1;
+            // one page beyond the announced end must be empty; stop there
+            if offset >= total.max(must.len()) || page > 400 {
+                break;
+            }
+        }
+        let missing: Vec<usize> = must.difference(&seen).cloned().collect();
+        if let Some(k) = missing.first() {
+            let mk = self.model.keys.get(k).unwrap();
+            return Ok(Some((format!("stored-key-missing/{}", mk.lineage), json!({"filter": f.to_json(), "limit": limit, "key": key_name(*k), "lineage": mk.lineage,
+                "last_op_on_key": self.model.last_class.get(k), "totals": totals, "page_lengths": lens, "stored_matching": must.len()}))));
+        }
+        let listed = seen.len();
+        for (i, t) in totals.iter().enumerate() {
+            if *t != listed || *t < must.len() || *t > must.len() + may.len() {
+                return Ok(Some(("total-differs-from-matches".into(), json!({"filter": f.to_json(), "limit": limit, "page": i, "total": t, "distinct_listed": listed, "stored_matching": must.len(), "tmp_only_matching": may.len()}))));
+            }
+        }
+        for (i, l) in lens.iter().enumerate() {
+            let want = listed.saturating_sub(i * limit).min(limit);
+            if *l != want {
+                return Ok(Some(("page-length-wrong".into(), json!({"filter": f.to_json(), "limit": limit, "page": i, "length": l, "expected": want, "total": listed}))));
+            }
+        }
+        let cls = if listed == 0 { "empty" } else if listed <= limit { "single-page" } else { "multi-page" };
+        if listed > 0 || !self.model.keys.is_empty() {
+            self.shape(format!("list/{}/limit{}/{}", f.shape(), limit, cls));
+        }
+        // a window at an arbitrary (non page-aligned) offset
+        if listed > 1 {
+            let off = self.r.gen_range(0..listed + 1);
+            let (total, list) = self.query(f, off, limit).await?;
+            let want = listed.saturating_sub(off).min(limit);
+            let distinct: BTreeSet<String> = list.iter().map(|it| format!("{}|{}|{}", it.tenant, it.group, it.data_id)).collect();
+            if total != listed || list.len() != want || distinct.len() != list.len() {
+                return Ok(Some(("window-at-free-offset-wrong".into(), json!({"filter": f.to_json(), "limit": limit, "offset": off, "total": total, "length": list.len(), "expected_length": want, "expected_total": listed}))));
+            }
+        }
+        Ok(None)
+    }
+
+    async fn sweep(&mut self) -> anyhow::Result<Option<(String, Value)>> {
+        self.count("sweeps", 1);
+        // ---- listings
+        let mut filters: Vec<Filter> = vec![];
+        for t in 0..TENANTS.len() {
+            let all = endpoint_filters(t);
+            if self.full_sweeps {
+                filters.extend(all);
+            } else {
+                // the three "everything in the tenant" shapes always, plus a sample of the others
+                for f in all.iter() {
+                    let everything = f.group.is_none() && f.data_id.is_none() && f.like_group.is_none() && f.like_data_id.is_none();
+                    if everything || self.r.gen_range(0..100) < 9 {
+                        filters.push(f.clone());
+                    }
+                }
+            }
+        }
+        for f in &filters {
+            for limit in PAGE_SIZES {
+                if let Some((sym, d)) = self.check_listing(f, limit).await? {
+                    return Ok(Some((format!("list/{}", sym), d)));
+                }
+            }
+        }
+        // ---- shapes no endpoint produces: diagnostics only
+        for f in &unreachable_filters() {
+            for limit in [2usize, 100_000] {
+                if let Some((sym, d)) = self.check_listing(f, limit).await? {
+                    let tn = if f.tenant.is_none() { "all-tenants" } else { "one-tenant" };
+                    let lm = if limit > 1000 { "one-big-page" } else { "paged" };
+                    self.diag.push((format!("unreachable-shape/{}/{}/{}/{}", tn, f.shape(), lm, sym.split('/').next().unwrap_or("")), d));
+                }
+            }
+        }
+        // ---- histories of every stored key, paged
+        let keys: Vec<usize> = self.model.keys.iter().filter(|(_, m)| m.applied.is_some()).map(|(k, _)| *k).collect();
+        for k in keys {
+            let want: Vec<String> = self.model.keys[&k].applied.as_ref().unwrap().hists[0].iter().rev().map(|x| x.to_string()).collect();
+            if self.model.keys[&k].applied.as_ref().unwrap().hists.len() > 1 {
+                continue; // undecided alternative, decided at the next read of the key
+            }
+            let sizes: Vec<usize> = if self.full_sweeps || want.len() > 7 || self.r.gen_range(0..4) == 0 { PAGE_SIZES.to_vec() } else { vec![PAGE_SIZES[self.r.gen_range(0..4)]] };
+            for limit in sizes {
+                let mut got: Vec<String> = vec![];
+                let mut page = 0;
+                loop {
+                    let (total, list) = self.history_page(k, Some((page * limit) as i64), Some(limit as i64)).await?;
+                    if total != want.len() {
+                        return Ok(Some(("history/page-total-wrong".into(), json!({"key": key_name(k), "limit": limit, "page": page, "total": total, "expected": want.len()}))));
+                    }
+                    let wl = want.len().saturating_sub(page * limit).min(limit);
+                    if list.len() != wl {
+                        return Ok(Some(("history/page-length-wrong".into(), json!({"key": key_name(k), "limit": limit, "page": page, "length": list.len(), "expected": wl, "total": total}))));
+                    }
+                    got.extend(list);
+                    page += 1;
+                    if page * limit >= want.len() + limit || page > 300 {
+                        break;
+                    }
+                }
+                if got != want {
+                    let first = got.iter().zip(want.iter()).position(|(a, b)| a != b);
+                    return Ok(Some(("history/pages-do-not-concatenate-to-the-history".into(), json!({"key": key_name(k), "limit": limit, "first_difference_at": first, "got_len": got.len(), "want_len": want.len()}))));
+                }
+                if want.len() > limit {
+                    self.shape(format!("history-paging/limit{}/multi-page{}", limit, if want.len() == BOUND { "/full-100" } else { "" }));
+                }
+            }
+            // shape no endpoint produces: no offset
+            let (total, list) = self.history_page(k, None, Some(10)).await?;
+            if total != want.len() || list.len() != want.len().min(10) {
+                self.diag.push(("unreachable-shape/history-without-offset".into(), json!({"key": key_name(k), "total": total, "length": list.len(), "history_len": want.len()})));
+            }
+        }
+        Ok(None)
+    }
+}
+
+/// run one history on a fresh ConfigActor; the first violation ends it
+pub async fn exec(ctx: &Ctx, ops: &[Op], seed: u64, mut rep: Option<&mut Report>, full_sweeps: bool, diag_out: &mut Vec<(String, Value)>) -> anyhow::Result<Option<Viol>> {
+    let cfg = new_config_actor(ctx).await;
+    let mut run = Run { cfg, model: Model::default(), rep: rep.as_deref_mut(), diag: vec![], r: rng(seed ^ 0x5eed), full_sweeps, hist_id: 0 };
+    let mut result = None;
+    for (i, op) in ops.iter().enumerate() {
+        let prev = op.key().and_then(|k| run.model.last_class.get(&k).cloned()).unwrap_or("none");
+        run.send_op(op).await?;
+        let class = run.model.apply(op);
+        let v = match op {
+            Op::Sweep => run.sweep().await?,
+            _ => {
+                run.count("ops", 1);
+                run.shape(format!("op/{}>{}", prev, class));
+                if let Op::Add { content, .. } | Op::Import { content, .. } | Op::Tmp { content, .. } = op {
+                    let cc = if content.is_empty() { "empty" } else if content.len() > 10_000 { "large" } else if !content.is_ascii() { "non-ascii" } else { "ascii" };
+                    run.shape(format!("content/{}/{}", class.split('-').next().unwrap_or(""), cc));
+                }
+                run.check_key(op.key().unwrap(), class).await?
+            }
+        };
+        if let Some((sig, detail)) = v {
+            result = Some(Viol { sig, op_index: i, detail });
+            break;
+        }
+    }
+    // release the memory of this history (the actor itself keeps ticking, it has no stop message)
+    let keys: Vec<usize> = run.model.keys.keys().cloned().collect();
+    for k in keys {
+        let _ = run.send_op(&Op::Remove { k }).await;
+    }
+    diag_out.append(&mut run.diag);
+    Ok(result)
+}
+
+/// delta-debugging on the operation list by re-running the real code; keeps the signature fixed
+async fn shrink(ctx: &Ctx, ops: Vec<Op>, seed: u64, sig: &str, at: usize) -> anyhow::Result<Vec<Op>> {
+    let mut cur: Vec<Op> = ops[..=at].to_vec();
+    if !matches!(cur.last(), Some(Op::Sweep)) && sig.starts_with("list/") {
+        cur.push(Op::Sweep);
+    }
+    let mut sink = vec![];
+    let mut budget = 600;
+    let mut chunk = (cur.len() / 2).max(1);
+    loop {
+        let mut i = 0;
+        while i < cur.len() && budget > 0 {
+            let end = (i + chunk).min(cur.len());
+            if end == cur.len() && i == 0 {
+                break;
+            }
+            let mut cand = cur.clone();
+            cand.drain(i..end);
+            budget -= 1;
+            let keep = match exec(ctx, &cand, seed, None, true, &mut sink).await? {
+                Some(v) => v.sig == sig,
+                None => false,
+            };
+            if keep {
+                cur = cand;
+            } else {
+                i = end;
+            }
+        }
+        if chunk == 1 || budget == 0 {
+            break;
+        }
+        chunk = (chunk / 2).max(1);
+    }
+    Ok(cur)
+}
+
+pub fn run(args: &Args) -> anyhow::Result<()> {
+    let seed = args.u64("seed", 1);
+    let histories = args.u64("histories", 25);
+    let nops = args.u64("ops", 150) as usize;
+    let dir = args.str("dir", "/tmp/vh-c09");
+    let only = args.get("only").and_then(|s| s.parse::<u64>().ok());
+    std::fs::create_dir_all(&dir)?;
+    std::env::set_var("RNACOS_DATA_DIR", format!("{}/host", dir));
+    std::env::set_var("RNACOS_RAFT_NODE_ID", "1");
+    std::env::set_var("RNACOS_RAFT_AUTO_INIT", "true");
+    std::env::set_var("RNACOS_RAFT_NODE_ADDR", "127.0.0.1:1");
+    std::env::set_var("RNACOS_NAMING_PERPETUAL_INSTANCE_PROBE_INTERVAL_SECOND", "0");
+    std::env::set_var("RNACOS_ENABLE_METRICS", "false");
+    let sys_config = Arc::new(AppSysConfig::init_from_env());
+    let mut rep = Report::default();
+    let sys = actix_rt::System::new();
+    let verbose = args.has("verbose");
+    let r: anyhow::Result<()> = sys.block_on(async {
+        let factory_data = config_factory(sys_config.clone()).await?;
+        let app = build_share_data(factory_data.clone())?;
+        let ctx = Ctx { ns: app.namespace_addr.clone() };
+        let t0 = std::time::Instant::now();
+        let seeds: Vec<u64> = match only {
+            Some(s) => vec![s],
+            None => (0..histories).map(|i| seed.wrapping_mul(1_000_003).wrapping_add(i)).collect(),
+        };
+        for hs in seeds {
+            let (ops, style) = gen_history(hs, nops);
+            let mut diag = vec![];
+            rep.count("histories", 1);
+            let v = exec(&ctx, &ops, hs, Some(&mut rep), false, &mut diag).await?;
+            rep.shape(format!("history-style/{}", style));
+            for (s, d) in diag {
+                let k = format!("diag:{}", s);
+                if !rep.counters.contains_key(&k) {
+                    rep.notes.insert(format!("diagnostic, not a violation (no endpoint produces this parameter shape): {} e.g. {}", s, d));
+                }
+                rep.count(&k, 1);
+            }
+            if let Some(v) = v {
+                let known = rep.violations.contains_key(&v.sig);
+                let witness = if known {
+                    json!({"history_seed": hs})
+                } else {
+                    let small = shrink(&ctx, ops.clone(), hs, &v.sig, v.op_index).await?;
+                    // the detail of the shrunk run
+                    let mut sink = vec![];
+                    let d2 = exec(&ctx, &small, hs, None, true, &mut sink).await?.map(|x| x.detail).unwrap_or(Value::Null);
+                    json!({"history_seed": hs, "history_style": style, "failed_at_op": v.op_index, "detail_in_full_history": v.detail,
+                           "shrunk_ops": small.iter().map(|o| o.to_json()).collect::<Vec<_>>(), "detail_in_shrunk_history": d2,
+                           "replay": format!("vh c09 --only {} --ops {} --verbose", hs, nops)})
+                };
+                if verbose {
+                    eprintln!("VIOLATION {} {}", v.sig, serde_json::to_string_pretty(&witness).unwrap_or_default());
+                }
+                rep.violation(v.sig, witness);
+            } else if rep.samples.len() < 3 {
+                rep.sample(json!({"history_seed": hs, "style": style, "ops": ops.len(), "first_ops": ops.iter().take(6).map(|o| o.to_json()).collect::<Vec<_>>(), "verdict": "all reads, listings and histories agreed with the reference model"}), 3);
+            }
+        }
+        rep.count("wall_ms_in_shard", t0.elapsed().as_millis() as u64);
+        Ok(())
+    });
+    r?;
+    rep.write(args)?;
+    std::process::exit(0);
 }
